@@ -274,7 +274,9 @@ class Lab(object):
         self._nfn = getattr(self, "_nfn", 0) + 1
         src = "\n" * self._nfn + "def fn_%d(context, *args, **kwargs):\n    calls.append((fid, args, kwargs))\n" % self._nfn
         ns = {"calls": self.calls, "fid": fid}
-        exec(compile(src, "/verif/generated_steps/steps_%s.py" % fid, "exec"), ns)
+        # two source files only: many different functions share a file and differ in their line alone (copy/paste duplicates
+        # inside one steps module), others live in different files
+        exec(compile(src, "/verif/generated_steps/steps_%s.py" % "ab"[self._nfn % 3 == 0], "exec"), ns)
         return ns["fn_%d" % self._nfn]
 
     def register(self, reg, kind, step_type, ptext, fn):
